@@ -406,10 +406,65 @@ func runC08(c *Ctx) {
 	// ---- P3 sidetree client builders
 	const pST = "vdr/sidetreelongform/sidetree"
 	grv := c.Fn("commitment", "GetRevealValue")
-	for _, bd := range []struct{ name, typ, info, opts, keyField string }{
-		{"buildUpdateRequest", "update", "UpdateRequestInfo", "$3", "UpdateKey"},
-		{"buildRecoverRequest", "recover", "RecoverRequestInfo", "$2", "RecoveryKey"},
-		{"buildDeactivateRequest", "deactivate", "DeactivateRequestInfo", "$1", "RecoveryKey"},
+	// the options parameter is found by its type (…/option/<kind>.Opts), the multihash code is the options' own
+	// MultiHashAlgorithm — read in the builder, or handed to it by every caller as a separate argument
+	var optsOfD func(f *ssa.Function, d int) (string, map[string]bool)
+	optsOf := func(f *ssa.Function) (string, map[string]bool) { return optsOfD(f, 0) }
+	optsOfD = func(f *ssa.Function, d int) (string, map[string]bool) {
+		k := -1
+		for i, p := range f.Params {
+			if n, ok := derefT(p.Type()).(*types.Named); ok && n.Obj().Name() == "Opts" {
+				k = i
+			}
+		}
+		if k < 0 {
+			return "", nil
+		}
+		opts := fmt.Sprintf("$%d", k)
+		mh := map[string]bool{opts + ".MultiHashAlgorithm": true}
+		for j, p := range f.Params {
+			if !isIntType(p.Type()) {
+				continue
+			}
+			n, all := 0, true
+			for _, g := range c.Funcs {
+				for _, cl := range callsTo(g, f) {
+					n++
+					if j >= len(cl.Call.Args) || k >= len(cl.Call.Args) {
+						all = false
+						continue
+					}
+					aj, ak := c.Path(cl.Call.Args[j], nil), c.Path(cl.Call.Args[k], nil)
+					if aj == ak+".MultiHashAlgorithm" {
+						continue
+					}
+					// the caller hands on its own options and the code it was given for them
+					if d < 3 {
+						if gopts, gmh := optsOfD(g, d+1); gopts != "" && gopts == ak && gmh[aj] {
+							continue
+						}
+					}
+					all = false
+				}
+			}
+			if n > 0 && all {
+				mh[fmt.Sprintf("$%d", j)] = true
+			}
+		}
+		return opts, mh
+	}
+	// commitmentOf: path is GetCommitment(GetPublicKeyJWK(<opts>.<keyField>)#0, <mh>)#0
+	commitmentOf := func(path, opts, keyField string, mh map[string]bool) bool {
+		pre := "commitment.GetCommitment(util/pubkey.GetPublicKeyJWK(" + opts + "." + keyField + ")#0,"
+		if !strings.HasPrefix(path, pre) || !strings.HasSuffix(path, ")#0") {
+			return false
+		}
+		return mh[path[len(pre):len(path)-len(")#0")]]
+	}
+	for _, bd := range []struct{ name, typ, info, keyField string }{
+		{"buildUpdateRequest", "update", "UpdateRequestInfo", "UpdateKey"},
+		{"buildRecoverRequest", "recover", "RecoverRequestInfo", "RecoveryKey"},
+		{"buildDeactivateRequest", "deactivate", "DeactivateRequestInfo", "RecoveryKey"},
 	} {
 		f := c.Fn(pST, bd.name)
 		if f == nil {
@@ -420,12 +475,17 @@ func runC08(c *Ctx) {
 			continue
 		}
 		c.Analysed(f)
-		signerKey := "invoke<vdr/sidetreelongform/sidetree/api.Signer>.PublicKeyJWK[" + bd.opts + ".Signer]()"
+		opts, mh := optsOf(f)
+		if opts == "" {
+			c.Check("C08.P3", bd.typ+":options-parameter", false, f.Pos(), "the builder has no options parameter (…/option/<kind>.Opts)")
+			continue
+		}
+		signerKey := "invoke<vdr/sidetreelongform/sidetree/api.Signer>.PublicKeyJWK[" + opts + ".Signer]()"
 		okRV := false
 		var rvPath string
 		for _, cl := range callsTo(f, grv) {
 			a0, a1 := c.Path(cl.Call.Args[0], nil), c.Path(cl.Call.Args[1], nil)
-			if strings.HasSuffix(a0, ".PublicKeyJWK["+bd.opts+".Signer]()") && a1 == "conv<uint>(hashing.GetMultihashCode("+bd.opts+".OperationCommitment)#0)" {
+			if strings.HasSuffix(a0, ".PublicKeyJWK["+opts+".Signer]()") && a1 == "conv<uint>(hashing.GetMultihashCode("+opts+".OperationCommitment)#0)" {
 				okRV = true
 				rvPath = c.Path(cl, nil) + "#0"
 				signerKey = a0
@@ -435,10 +495,10 @@ func runC08(c *Ctx) {
 		it := c.NamedType(pClient, bd.info)
 		for _, a := range allocsOf(f, it) {
 			ft := c.fieldTable(a, nil)
-			ok := len(ft["RevealValue"]) == 1 && ft["RevealValue"][0] == rvPath && len(ft[bd.keyField]) == 1 && ft[bd.keyField][0] == signerKey && len(ft["Signer"]) == 1 && ft["Signer"][0] == bd.opts+".Signer" && len(ft["DidSuffix"]) == 1 && strings.Contains(ft["DidSuffix"][0], "getUniqueSuffix(")
+			ok := len(ft["RevealValue"]) == 1 && ft["RevealValue"][0] == rvPath && len(ft[bd.keyField]) == 1 && ft[bd.keyField][0] == signerKey && len(ft["Signer"]) == 1 && ft["Signer"][0] == opts+".Signer" && len(ft["DidSuffix"]) == 1 && strings.Contains(ft["DidSuffix"][0], "getUniqueSuffix(")
 			c.Check("C08.P3", bd.typ+":request-info", ok, a.Pos(), fmt.Sprintf("request info %v", ft))
 			if bd.typ == "update" {
-				okN := len(ft["UpdateCommitment"]) == 1 && strings.HasPrefix(ft["UpdateCommitment"][0], "commitment.GetCommitment(util/pubkey.GetPublicKeyJWK("+bd.opts+".NextUpdatePublicKey)#0,$2)")
+				okN := len(ft["UpdateCommitment"]) == 1 && commitmentOf(ft["UpdateCommitment"][0], opts, "NextUpdatePublicKey", mh)
 				c.Check("C08.P3", "update:next-commitment", okN, a.Pos(), fmt.Sprintf("next update commitment = %v", ft["UpdateCommitment"]))
 			}
 			if bd.typ == "recover" {
@@ -452,17 +512,19 @@ func runC08(c *Ctx) {
 		for _, r := range successReturns(gc) {
 			rets = append(rets, []string{c.Path(r.Results[0], nil), c.Path(r.Results[1], nil)})
 		}
-		ok := len(rets) == 1 && rets[0][0] == "commitment.GetCommitment(util/pubkey.GetPublicKeyJWK($1.NextRecoveryPublicKey)#0,$0)#0" && rets[0][1] == "commitment.GetCommitment(util/pubkey.GetPublicKeyJWK($1.NextUpdatePublicKey)#0,$0)#0"
+		opts, mh := optsOf(gc)
+		ok := len(rets) == 1 && opts != "" && commitmentOf(rets[0][0], opts, "NextRecoveryPublicKey", mh) && commitmentOf(rets[0][1], opts, "NextUpdatePublicKey", mh)
 		c.Check("C08.P3", "recover:getCommitment", ok, gc.Pos(), fmt.Sprintf("next (recovery, update) commitments = %v", rets))
 	}
 	if bc := c.Fn(pST, "buildCreateRequest"); bc != nil {
 		c.Analysed(bc)
 		it := c.NamedType(pClient, "CreateRequestInfo")
+		opts, mh := optsOf(bc)
 		for _, a := range allocsOf(bc, it) {
 			ft := c.fieldTable(a, nil)
-			ok := len(ft["RecoveryCommitment"]) == 1 && ft["RecoveryCommitment"][0] == "commitment.GetCommitment(util/pubkey.GetPublicKeyJWK($1.RecoveryPublicKey)#0,$0)#0" &&
-				len(ft["UpdateCommitment"]) == 1 && ft["UpdateCommitment"][0] == "commitment.GetCommitment(util/pubkey.GetPublicKeyJWK($1.UpdatePublicKey)#0,$0)#0" &&
-				len(ft["MultihashCode"]) == 1 && ft["MultihashCode"][0] == "$0"
+			ok := opts != "" && len(ft["RecoveryCommitment"]) == 1 && commitmentOf(ft["RecoveryCommitment"][0], opts, "RecoveryPublicKey", mh) &&
+				len(ft["UpdateCommitment"]) == 1 && commitmentOf(ft["UpdateCommitment"][0], opts, "UpdatePublicKey", mh) &&
+				len(ft["MultihashCode"]) == 1 && mh[ft["MultihashCode"][0]]
 			c.Check("C08.P3", "create:request-info", ok, a.Pos(), fmt.Sprintf("create request info %v", ft))
 		}
 	}
